@@ -180,15 +180,16 @@ func (a *adapter) Data(data []byte, streamEnded bool) error {
 
 	a.buffer.Write(data)
 
+	if streamEnded && a.state == readingMetadata && a.buffer.Len() == 0 {
+		// gRPC may send empty DATA frames to end a stream.
+		return a.processor.Message(nil, true)
+	}
+
+	// Each state returns when the buffer does not hold what it needs yet. The buffer running empty is
+	// not a reason to stop: a message with an empty payload is complete as soon as its prefix is read.
 	for {
 		switch a.state {
 		case readingMetadata:
-			if streamEnded && a.buffer.Len() == 0 {
-				// gRPC may send empty DATA frames to end a stream.
-				if err := a.processor.Message(nil, true); err != nil {
-					return err
-				}
-			}
 			if a.buffer.Len() < 5 {
 				return nil
 			}
@@ -245,9 +246,6 @@ func (a *adapter) Data(data []byte, streamEnded bool) error {
 			}
 		default:
 			panic(fmt.Sprintf("unexpected state: %v", a.state))
-		}
-		if a.buffer.Len() == 0 {
-			return nil
 		}
 	}
 }
